@@ -1,5 +1,5 @@
 #!/usr/bin/env python3
-"""Sensitivity experiments: apply a small semantic mutation to /repo, run a check, always revert.
+"""Sensitivity experiments: apply a small semantic mutation to a scratch copy of /repo and run a check against it.
 
 usage: tools/mutant.py <mutant-name> [--tier quick] [--keep-going]
        tools/mutant.py --list
@@ -15,15 +15,20 @@ CAT = json.load(open(os.path.join(ROOT, "mutants", "catalog.json")))
 
 def run_one(name, tier="quick"):
     m = CAT[name]
-    path = os.path.join("/repo", m["file"])
+    sname = "mut-%d" % os.getpid()
+    sdir = "/var/tmp/verif-scratch-" + sname
+    subprocess.run([os.path.join(ROOT, "tools", "scratch.sh"), "init", sname], stdout=subprocess.DEVNULL, check=True)
+    path = os.path.join(sdir, m["file"])
     src = open(path).read()
     if src.count(m["old"]) != 1:
         print("MUTANT %s: pattern occurs %d times in %s" % (name, src.count(m["old"]), m["file"]))
+        subprocess.run([os.path.join(ROOT, "tools", "scratch.sh"), "rm", sname])
         return None
     scratch = tempfile.mkdtemp(prefix="mut-replays-")
     try:
         open(path, "w").write(src.replace(m["old"], m["new"]))
-        env = dict(os.environ, VERIF_REPLAY_OUT=scratch, VERIF_SEED=os.environ.get("VERIF_SEED", "1"))
+        env = dict(os.environ, VERIF_REPLAY_OUT=scratch, VERIF_SEED=os.environ.get("VERIF_SEED", "1"),
+                   VERIF_MODFILE=sdir + ".mod")
         t0 = time.time()
         props = m["prop"] if isinstance(m["prop"], list) else [m["prop"]]
         res = {}
@@ -45,9 +50,8 @@ def run_one(name, tier="quick"):
                 print(r.stdout[-3000:])
         return res
     finally:
-        open(path, "w").write(src)
         shutil.rmtree(scratch, ignore_errors=True)
-        subprocess.run(["git", "-C", "/repo", "checkout", "--", m["file"]])
+        subprocess.run([os.path.join(ROOT, "tools", "scratch.sh"), "rm", sname])
 
 
 if __name__ == "__main__":
